@@ -79,6 +79,12 @@ def attr_value(x):
 def var_array(spec, v):
     shape = shape_of(spec, v)
     a = gen_values(v, shape)
+    if v.get('nonfinite') and a.dtype.kind == 'f' and a.size:
+        fl = a.reshape(-1)
+        for i, what in v['nonfinite']:
+            fl[i % fl.size] = float(what)
+    if v.get('mask') == []:
+        return np.ma.masked_array(a, fill_value=np.dtype(a.dtype).type(v.get('fill', -999)))
     if v.get('mask') is not None:
         m = np.zeros(a.shape, dtype=bool)
         flat = m.reshape(-1)
@@ -322,6 +328,13 @@ def gen_spec(rng, style=None):
             n = int(np.prod([dl[d] for d in vd]))
             v['mask'] = sorted(set(rng.randrange(n) for _ in range(rng.randrange(1, 4))))
             v['fill'] = rng.choice([-999, -9999, 1e20]) if dt != 'i4' else -999
+            if rng.random() < 0.25:
+                v['mask'] = []        # masked type, nothing masked at the moment
+        if dt != 'i4' and rng.random() < 0.12:
+            # model output does contain non-finite numbers now and then
+            n = int(np.prod([dl[d] for d in vd]))
+            v['nonfinite'] = [[rng.randrange(max(1, n)), rng.choice(['nan', 'inf', '-inf'])]
+                              for _ in range(rng.randrange(1, 3))]
         vars_.append(v)
     if rng.random() < 0.2:
         vars_.append({'name': 'scalar', 'dt': 'f8', 'dims': [],
